@@ -14,6 +14,11 @@ PID = "C07"
 K_HOOK = "hook-exception-request-unanswered"
 K_WRITTEN = "written-hook-second-pdu"
 K_UNKNOWN = "unknown-opcode-unanswered"
+K_NOTIF = "notification-hook-exception-then-hook-update-wedges"
+
+
+def quiet(o):
+    return o is None or o[0] in ("ret", "val")
 
 
 def oracle_case(spec, evs, res):
@@ -21,8 +26,12 @@ def oracle_case(spec, evs, res):
     Returns list of (step index, what, key, expected, observed); stops at the first wedge."""
     bad = []
     mtu, connected = 23, True
+    notif_raised = False      # a notification / indication hook raised earlier: the procedure lock is stuck
     for k, (ev, st) in enumerate(zip(evs, res["steps"])):
         out = [bytes.fromhex(x) for x in st["out"]]
+        hk0 = ev.get("hooks") or {}
+        if not (quiet(hk0.get("notif")) and quiet(hk0.get("indic"))):
+            notif_raised = True
         if ev["op"] == "conn":
             if not connected:
                 connected, mtu = True, 23
@@ -38,13 +47,18 @@ def oracle_case(spec, evs, res):
         if ev["op"] != "req" or not connected:
             continue
         r = ev["req"]
-        kind, n, hooks = r[0], len(out), ev.get("hooks") or {}
+        # responses = everything but the notifications / indications a hook's update may send meanwhile
+        rsp = [p for p in out if p[:1] not in (b"\x1b", b"\x1d")]
+        kind, n, hooks = r[0], len(rsp), ev.get("hooks") or {}
         if kind in U.REQUEST_KINDS and not (kind == "ReadMultiple" and not r[1]):
             if n != 1:
                 key = None
                 if n == 0 and st["exc"] == "HookBoom":
                     key = K_HOOK
-                elif n == 2 and out[0] == b"\x13" and hooks.get("written", ["ret"])[0] != "ret" and hooks.get("write", ["ret"])[0] == "ret":
+                elif n == 0 and st["exc"] == "WouldDeadlock" and notif_raised and ev.get("acts"):
+                    key = K_NOTIF
+                elif n == 2 and rsp[0] == b"\x13" and hooks.get("write", ["ret"])[0] == "ret" and \
+                        (hooks.get("written", ["ret"])[0] != "ret" or (notif_raised and (ev.get("acts") or {}).get("written"))):
                     key = K_WRITTEN
                 bad.append((k, "%d PDUs answer a %s request (exception: %s)" % (n, kind, st["exc"]), key, "exactly 1", st["out"]))
         elif kind == "UnknownOp":
@@ -54,7 +68,7 @@ def oracle_case(spec, evs, res):
             if n > 1:
                 bad.append((k, "%d PDUs sent for a %s command" % (n, kind), None, "<= 1", st["out"]))
         elif kind == "Indication":
-            if st["out"] != ["1e"]:
+            if [p.hex() for p in rsp] != ["1e"]:
                 bad.append((k, "indication not answered by exactly one confirmation", None, ["1e"], st["out"]))
         for p in out:
             if len(p) > mtu:
@@ -72,7 +86,8 @@ def oracle_case(spec, evs, res):
                 if any(h < s or h > e for h in hs) or any(a >= b for a, b in zip(hs, hs[1:])):
                     bad.append((k, "list response handles outside the range or not increasing", None, [s, e], hs))
         if not st["probe"]:
-            bad.append((k, "server does not answer the next request after %s (exception: %s)" % (kind, st["exc"]), None, "probe answered", "no answer"))
+            key = K_NOTIF if (st["exc"] == "WouldDeadlock" and notif_raised and ev.get("acts")) else None
+            bad.append((k, "server does not answer the next request after %s (exception: %s)" % (kind, st["exc"]), key, "probe answered", "no answer"))
             break
         if kind == "ExchangeMtu" and r[1] >= 23 and out and out[0][0] == 3:
             mtu = max(23, min(r[1], struct.unpack("<H", out[0][1:3])[0]))
@@ -114,7 +129,8 @@ def gen_cases(ctx, n):
         spec = U.gen_profile(rng, small=(i % 3 == 0))
         g = U.HistoryGen(rng, U.flatten(spec), hooks_p=0.3 if i % 4 else 0.0, allow_raise=(i % 2 == 0))
         n = rng.randrange(8, 26)
-        cases.append((spec, g.exec_history(n) if i % 8 == 5 else g.sub_history(n) if i % 8 == 6 else g.history(n)))
+        cases.append((spec, g.exec_history(n) if i % 8 == 5 else g.sub_history(n) if i % 8 == 6
+                      else g.hook_history(n) if i % 8 in (1, 3) else g.history(n)))
     return cases
 
 
